@@ -8,7 +8,7 @@ from pyvc.solve import _case_split, to_smt2
 w = build_world('/repo')
 rel,q,cn = T[sys.argv[1]]
 r = verify_function(w, rel, q, w.contracts[cn])
-o = [o for o in r.obligations if o.id.startswith(sys.argv[2])][0]
+o = [o for o in r.obligations if o.id.startswith(sys.argv[2]) and (len(sys.argv) <= 5 or sys.argv[5] in o.id)][0]
 cases = _case_split(o.pc)
 print(len(cases), 'cases; pc', len(o.pc))
 for k, pc in enumerate(cases):
